@@ -250,6 +250,154 @@ def _late_ops(history, idx, log, c):
     return False
 
 
+def make_client_harness(poller_name, n_ops):
+    """a TCPClient on a scripted socket: one `connected`, ordered reads, exactly one `disconnected`, no trace"""
+    from circuits.net.events import connect as connect_ev
+
+    def harness(g):
+        kernel = StubKernel(first_free=1000)
+        saved = PL.select
+        PL.select = kernel
+        poller = None
+        try:
+            poller = getattr(PL, poller_name)()
+            body(g, kernel, poller)
+        finally:
+            PL.select = saved
+            if poller is not None:
+                for fdn in (poller._ctrl_recv, poller._ctrl_send):
+                    try:
+                        os.close(fdn)
+                    except Exception:
+                        pass
+
+    def body(g, kernel, poller):
+        log = []
+
+        class Obs(BaseComponent):
+            channel = '*'
+
+            @handler('connected', channel='*')
+            def on_connected(self, *a):
+                log.append(('connected', None))
+
+            @handler('read', channel='*')
+            def on_read(self, data):
+                log.append(('read', bytes(data)))
+
+            @handler('disconnected', channel='*')
+            def on_disconnected(self, *a):
+                log.append(('disconnected', None))
+
+            @handler('error', channel='*')
+            def on_error(self, *a):
+                log.append(('error', repr(a[-1]) if a else None))
+
+            @handler('exception', channel='*')
+            def on_exc(self, etype, evalue, tb, handler=None, fevent=None):
+                log.append(('exception', '%r in %s' % (evalue, getattr(fevent, 'name', None))))
+
+        root = BaseComponent()
+        Obs().register(root)
+        poller.register(root)
+        client = SK.TCPClient(channel='client').register(root)
+        try:
+            client._sock.close()
+        except Exception:
+            pass
+        sock = ConnSock(kernel, 'csock')
+        sock.connect = lambda addr: None
+        sock.connect_ex = lambda addr: 0
+        client._sock = sock
+        doubles.mark_running(root)
+        for _ in range(3):
+            root.tick(0)
+        del log[:]
+
+        def iterate():
+            for _ in range(4):
+                root.tick(0)
+                if not len(root._queue) and not root._tasks:
+                    break
+
+        root.fire(connect_ev('10.0.0.9', 4000), 'client')
+        iterate()
+        history = []
+        wrote = bytearray()
+        n = [0]
+        for step in range(n_ops):
+            ops = []
+            if not sock.peer_fin and not sock.peer_rst:
+                ops += [('send',), ('fin',), ('rst',), ('block',) if not sock.blocked else ('unblock',)]
+            ops += [('write',), ('close',), ('iterate',), ('stop',)]
+            op = g.pick('op%d' % step, ops)
+            history.append(op)
+            if op[0] == 'stop':
+                break
+            n[0] += 1
+            if op[0] == 'send':
+                sock.peer_send(b'p%d' % n[0])
+            elif op[0] == 'fin':
+                sock.peer_close()
+            elif op[0] == 'rst':
+                sock.peer_abort()
+            elif op[0] == 'block':
+                sock.blocked = True
+            elif op[0] == 'unblock':
+                sock.blocked = False
+            elif op[0] == 'write':
+                if not any(x[0] == 'disconnected' for x in log):
+                    wrote.extend(b'w%d' % n[0])
+                root.fire(write(b'w%d' % n[0]), 'client')
+            elif op[0] == 'close':
+                root.fire(close(), 'client')
+            elif op[0] == 'iterate':
+                iterate()
+        sock.blocked = False
+        for _ in range(6):
+            iterate()
+        if not sock.peer_fin and not sock.peer_rst:
+            sock.peer_close()
+        for _ in range(6):
+            iterate()
+        doubles.unmark_running(root)
+        kinds = [x[0] for x in log]
+        closed_locally = ('close',) in history
+        w = {'poller': poller_name, 'side': 'client', 'peer': 'rst' if sock.peer_rst else 'fin', 'closed_locally': closed_locally,
+             'closed_by_failed_write': any(x[0] == 'error' and 'BrokenPipe' in str(x[1]) for x in log)}
+        detail = 'poller=%s history=%s log=%s' % (poller_name, history, log)
+        g.note({'poller': poller_name, 'side': 'client', 'history': [list(map(str, h)) for h in history]})
+        if [x for x in log if x[0] == 'exception']:
+            g.fail('unexpected-exception', w, detail)
+            raise PathEnd()
+        if kinds.count('connected') != 1:
+            g.fail('connect-count', w, detail)
+            raise PathEnd()
+        if kinds.count('disconnected') != 1:
+            g.fail('disconnect-count', w, '%d disconnected events; %s' % (kinds.count('disconnected'), detail))
+            raise PathEnd()
+        di = kinds.index('disconnected')
+        if [x for x in log[di + 1:] if x[0] in ('read', 'connected', 'disconnected', 'error')]:
+            g.fail('event-after-disconnect', w, detail)
+        got = b''.join(x[1] for x in log if x[0] == 'read')
+        sent = bytes(sock.sent_total)
+        if closed_locally:
+            if not sent.startswith(got):
+                g.fail('read-data-corrupted', w, 'got %r sent %r; %s' % (got, sent, detail))
+        elif got != sent:
+            g.fail('read-data-lost-or-duplicated', w, 'got %r sent %r; %s' % (got, sent, detail))
+        if sock.recv_after_close or sock.send_after_close:
+            g.fail('io-on-closed-socket', w, detail)
+        if not sock.closed:
+            g.fail('socket-never-closed', w, detail)
+        held = ['poller' + p for p in retained(poller, sock)]
+        if kernel.open.get(sock.no) is sock:
+            held.append('kernel.open')
+        if held:
+            g.fail('state-retained-after-disconnect', w, '%s; %s' % (sorted(set(held)), detail))
+    return harness
+
+
 ENC = [SK.Server._on_read, SK.Server._accept, SK.Server._on_accept_done, SK.Server._read, SK.Server._close, SK.Server.close]
 
 
@@ -272,6 +420,10 @@ def parts(tier):
                         bounds={'poller': name, 'history_length': n, 'connections': 1 if tier == 'quick' else 2,
                                 'ops': 'connect/send/fin/rst/block/unblock/write/close (also late)/iterate'},
                         encoded=ENC, budget_s=85 if tier == 'quick' else 1500))
+    for name in ('Select', 'Poll', 'EPoll'):
+        out.append(Part('client-' + name, make_client_harness(name, 5 if tier == 'quick' else 7),
+                        bounds={'poller': name, 'side': 'TCPClient', 'history_length': 5 if tier == 'quick' else 7, 'ops': 'send/fin/rst/block/unblock/write/close/iterate'},
+                        encoded=[SK.Client._read, SK.Client._close, SK.Client.close, SK.Client.write], budget_s=85 if tier == 'quick' else 1200))
     if tier == 'quick':
         for name in ('Select', 'Poll', 'EPoll'):
             out.append(Part('two-connections-' + name, make_harness(name, 5, max_conns=2), bounds={'poller': name, 'history_length': 5, 'connections': 2}, encoded=ENC, budget_s=85))
